@@ -1,6 +1,7 @@
 import IoraModel.Lemmas.XmlExplicit
 import IoraModel.Lemmas.XmlDom
 import IoraModel.Lemmas.XmlRender
+import IoraModel.Lemmas.XmlContent
 /-! The specifications proved about the closed forms, restated for the explicit tokenizer of `Model/Xml.lean`
 (`next_eq`, `tokens_eq`). -/
 namespace Iora.Xml
@@ -238,5 +239,202 @@ mutual
       · exact events_tags d e v hv
       · exact eventsList_tags d r v hv
 end
+
+/-! ### content tokens and documents with every node kind, for the explicit tokenizer -/
+
+theorem content_faithful' (o : Options) (ps : List CPiece) (trail : Bytes) (vs : List CView)
+    (hwf : ∀ p ∈ ps, p.WF o) (htext : TextOk ps trail) (htrail : AllSpace trail)
+    (hbud : o.maxTokens = 0 ∨ ps.length < o.maxTokens) (hspec : specRunC o [] ps = some (vs, [])) :
+    (tokens o (renderC ps ++ trail)).1.map (Token.cview (renderC ps ++ trail)) = vs ∧
+    ∃ t s, (tokens o (renderC ps ++ trail)).2 = .accepted t s := by
+  rw [tokens_eq]; exact content_faithful o ps trail vs hwf htext htrail hbud hspec
+
+theorem doc_faithful' (o : Options) (es : List CElem) (trail : Bytes) (hwf : CWFList o es)
+    (htext : TextOk (cpiecesList es) trail) (htrail : AllSpace trail)
+    (hh : cheightList es ≤ o.maxDepth) (hbud : o.maxTokens = 0 ∨ (cpiecesList es).length < o.maxTokens) :
+    (tokens o (renderDoc es trail)).1.map (Token.cview (renderDoc es trail)) = ceventsList 1 es ∧
+    ∃ t s, (tokens o (renderDoc es trail)).2 = .accepted t s := by
+  rw [tokens_eq]; exact doc_faithful o es trail hwf htext htrail hh hbud
+
+/-- the document-order events of one token view, attribute values and text decoded (DOCTYPE: none; a text whose decoded value
+is empty: none) -/
+def cviewEvs (v : CView) : Option (List Ev) :=
+  match v.kind with
+  | .startElement => (decodePairs v.attrs).map fun as => [.open_ v.name as]
+  | .emptyElement => (decodePairs v.attrs).map fun as => [.open_ v.name as, .close]
+  | .endElement => some [.close]
+  | .text =>
+    match decodeEntities v.text with
+    | .ok d => some (if d.isEmpty then [] else [.text d])
+    | _ => none
+  | .cdata => some [.cdata v.text]
+  | .comment => some [.comment v.text]
+  | .pi => some [.pi v.name v.text]
+  | _ => some []
+
+def cviewsEvs : List CView → Option (List Ev)
+  | [] => some []
+  | v :: vs =>
+    match cviewEvs v, cviewsEvs vs with
+    | some a, some b => some (a ++ b)
+    | _, _ => none
+
+theorem tokEvs_cview (bs : Bytes) (t : Token) : tokEvs bs t = cviewEvs (t.cview bs) := by
+  unfold tokEvs cviewEvs
+  simp only [Token.cview]
+  have := decodeAttrs_pairs bs t.attrs
+  cases hk : t.kind <;> simp only [hk, Kind.hasName, Kind.hasText, ↓reduceIte]
+  · rw [← this]; cases decodeAttrs bs t.attrs <;> simp
+  · rw [← this]; cases decodeAttrs bs t.attrs <;> simp
+  · cases decodeEntities (Slice.bytes bs t.text) <;> rfl
+
+theorem evsOf_cviews (bs : Bytes) : ∀ ts : List Token, evsOf bs ts = cviewsEvs (ts.map (Token.cview bs)) := by
+  intro ts
+  induction ts with
+  | nil => rfl
+  | cons t ts ih =>
+    simp only [evsOf, List.map_cons, cviewsEvs]
+    rw [tokEvs_cview bs t, ih]
+    cases cviewEvs (Token.cview bs t) <;> cases cviewsEvs (List.map (Token.cview bs) ts) <;> rfl
+
+/-- not a failure of `decodeEntities` -/
+def DomRes.notDecodeErr : DomRes → Prop
+  | .null e _ _ _ => e.isDecode = false
+  | _ => True
+
+/-- a builder step on a token whose values decode stops early only for an unbalanced end tag -/
+theorem domStep_inr_decodes (bs : Bytes) (d : DomSt) (t : Token) (r : DomRes) (es : List Ev) (hev : tokEvs bs t = some es)
+    (h : domStep bs d t = .inr r) : r.notDecodeErr := by
+  unfold domStep at h
+  unfold tokEvs at hev
+  cases hk : t.kind <;> simp only [hk] at h hev
+  all_goals first
+    | (cases h; done)
+    | skip
+  · -- startElement
+    cases hd : decodeAttrs bs t.attrs with
+    | ok as => rw [hd] at h; cases h
+    | error e => rw [hd] at hev; cases hev
+  · -- endElement
+    cases ho : d.open_ with
+    | nil => rw [ho] at h; cases h; rfl
+    | cons f fs => rw [ho] at h; cases h
+  · -- emptyElement
+    cases hd : decodeAttrs bs t.attrs with
+    | ok as => rw [hd] at h; cases h
+    | error e => rw [hd] at hev; cases hev
+  · -- text
+    cases hd : decodeEntities (t.text.bytes bs) with
+    | ok v => rw [hd] at h; simp only at h; split at h <;> cases h
+    | err e off => rw [hd] at hev; cases hev
+    | fuel => rw [hd] at hev; cases hev
+
+theorem domFold_inr_decodes (bs : Bytes) : ∀ (ts : List Token) (d : DomSt) (r : DomRes) (es : List Ev), evsOf bs ts = some es →
+    domFold bs d ts = .inr r → r.notDecodeErr := by
+  intro ts
+  induction ts with
+  | nil => intro d r es _ h; simp [domFold] at h
+  | cons t ts ih =>
+    intro d r es hev h
+    simp only [evsOf] at hev
+    cases hte : tokEvs bs t with
+    | none => rw [hte] at hev; simp at hev
+    | some a =>
+      cases hes : evsOf bs ts with
+      | none => rw [hte, hes] at hev; simp at hev
+      | some b =>
+        simp only [domFold] at h
+        cases hst : domStep bs d t with
+        | inl d' => rw [hst] at h; exact ih d' r b hes h
+        | inr r' =>
+          rw [hst] at h
+          simp only [Sum.inr.injEq] at h
+          subst h
+          exact domStep_inr_decodes bs d t _ a hte hst
+
+/-- **the DOM is built whenever every value decodes**: for an accepted document whose attribute values and text runs all decode
+(`evsOf … = some es`), `DomBuilder::build` returns a document, and walking it in document order gives exactly `es` -/
+theorem dom_built (o : Options) (bs : Bytes) (t : Token) (s : St) (es : List Ev) (hacc : (tokens o bs).2 = .accepted t s)
+    (hdec : evsOf bs (tokens o bs).1 = some es) : ∃ ch, domBuild o bs = .doc ch ∧ flattenList ch = es := by
+  have hok := tokens_ok' o bs
+  have hst := hok.stack
+  rw [hacc] at hst
+  have hbal := domFold_balanced bs (tokens o bs).1 [] [] {} hst rfl
+  unfold domBuild domOf
+  cases hf : domFold bs {} (tokens o bs).1 with
+  | inr r =>
+    rw [hf] at hbal
+    have hnd := domFold_inr_decodes bs _ _ r es hdec hf
+    cases r with
+    | doc _ => exact hbal.elim
+    | null e _ _ _ => simp only [DomRes.notDecodeErr] at hbal hnd; rw [hbal] at hnd; cases hnd
+    | bad _ => exact hbal.elim
+  | inl d =>
+    rw [hf] at hbal
+    simp only at hbal ⊢
+    rw [hacc]
+    simp only
+    obtain ⟨es', hes', hflat⟩ := domFold_flat bs _ _ _ hf
+    rw [hdec] at hes'
+    cases hes'
+    cases hop : d.open_ with
+    | nil =>
+      simp only
+      refine ⟨d.top, rfl, ?_⟩
+      simp [DomSt.flat, hop, flatOpen, flattenList] at hflat
+      exact hflat
+    | cons _ _ => rw [hop] at hbal; simp at hbal
+
+/-! ### the public `next()` with its latches -/
+
+/-- once `_hasError` or `_emittedEof` is set, every further call returns false and changes nothing -/
+theorem pnext_latched (o : Options) (p : PSt) (h : p.error.isSome = true ∨ p.emittedEof = true) : pnext o p = (none, p) := by
+  unfold pnext
+  rcases h with h | h
+  · simp [h]
+  · by_cases he : p.error.isSome = true
+    · simp [he]
+    · simp [he, h]
+
+theorem pcalls_latched (o : Options) : ∀ (k : Nat) (p : PSt), (p.error.isSome = true ∨ p.emittedEof = true) →
+    pcalls o k p = ([], p) := by
+  intro k
+  induction k with
+  | zero => intro p _; rfl
+  | succ k ih =>
+    intro p h
+    simp only [pcalls, pnext_latched o p h]
+    exact ih p h
+
+/-- calling the public `next()` at least as often as the run needs — and any number of times more — yields exactly the run:
+the same tokens, the error recorded (state untouched by the failing call) or Eof latched -/
+theorem pcalls_run (o : Options) : ∀ (fuel : Nat) (s : St) (extra : Nat),
+    match (run o fuel s).2 with
+    | .accepted _ s' => pcalls o (fuel + extra) ⟨s, none, false⟩ = ((run o fuel s).1, ⟨s', none, true⟩)
+    | .error e c s' => pcalls o (fuel + extra) ⟨s, none, false⟩ = ((run o fuel s).1, ⟨s', some (e, c), false⟩)
+    | .bad _ => True := by
+  intro fuel
+  induction fuel with
+  | zero => intro s extra; simp [run]
+  | succ fuel ih =>
+    intro s extra
+    have hfe : fuel + 1 + extra = (fuel + extra) + 1 := by omega
+    rw [hfe]
+    simp only [run, pcalls, pnext, Option.isSome_none, Bool.false_eq_true, ↓reduceIte]
+    cases hn : next o s with
+    | tok t s' =>
+      simp only
+      have := ih s' extra
+      cases hout : (run o fuel s').2 with
+      | accepted t' s'' => rw [hout] at this; simp only [this]
+      | error e c s'' => rw [hout] at this; simp only [this]
+      | bad b => trivial
+    | eof t s' =>
+      simp only
+      exact pcalls_latched o _ _ (Or.inr rfl)
+    | err e c =>
+      simp only
+      exact pcalls_latched o _ _ (Or.inl rfl)
+    | bad b => trivial
 
 end Iora.Xml
